@@ -307,4 +307,4 @@ ADDENDA3 = {
         "library helpers, real Rachford-Rice solver for 1-6 chemicals and real lstsq (mode B). 3 more defects repaired (one of them a regression of a repair made in this session, caught before registration).",
 }
 for _p, _c in CHECKS.items():
-    if _p in ADDENDA3: _c['level_note'] = _c['level_note'] + ' ' + ADDENDA3[_p]
+    if _p in ADDENDA3: _c['level_note'] = _c['level_note'] + ' ' + ADDENDA3[_p] + ' Targeted groups added after rounds 3-5 of seeded changes are listed per change in DESIGN.md 8.4.'
